@@ -2,7 +2,9 @@
 //! LintGroup in which only `CorrectNumberSuffix` is enabled.
 //!
 //! Case lines (see ocaml/c17_main.ml):  `T cps | cp:bits ..` raw lexing,  `D cps | cp:bits ..` number tokens of the
-//! document + lints of the rule,  `C pre | num | sfx | post | cp:bits ..` the covered-context predicate.
+//! document + lints of the rule,  `C pre | num | sfx | post | cp:bits ..` the covered-context predicate,
+//! `F cps` str::parse::<f64> of a digit string (bits) + NumberSuffix::correct_suffix_for on it,  `G neg m e | nan | inf neg`
+//! NumberSuffix::correct_suffix_for on an arbitrary f64 (Proofs/C17Float.v, the Flocq model of the f64 path).
 use harper_core::linting::{Lint, LintGroup, Linter, Suggestion};
 use harper_core::parsers::{Parser, PlainEnglish};
 use harper_core::{Dialect, Document, FstDictionary, NumberSuffix, Punctuation, Token, TokenKind};
@@ -317,7 +319,11 @@ fn run_case(im: &mut Impl, s: &Spec) -> Outcome {
     let chars: Vec<char> = text.chars().collect();
     let (pre, num, sfx, post): (Vec<char>, Vec<char>, Vec<char>, Vec<char>) =
         (s.pre.chars().collect(), s.num.chars().collect(), s.sfx.chars().collect(), s.post.chars().collect());
-    let in_model = !text.contains('@') && !text.contains("://");
+    // since Model/C17Tails.v the URL / e-mail tails are inside the model: every text is sent to it
+    let in_model = true;
+    if text.contains('@') || text.contains("://") {
+        o.counts.push("text_with_@_or_://(url/e-mail tails, modelled)".into());
+    }
     let table = im.classes.table(&chars);
     let cps_line = |cs: &[char]| cps(cs);
     // ---- implementation
@@ -568,6 +574,29 @@ fn float_edge(r: &mut Rng) -> String {
     }
 }
 
+/// texts that reach the URL / e-mail tails (Model/C17Tails.v): schemes, logins with and without password, ports,
+/// paths with escapes, quoted and dotted local parts, each glued to or standing next to an ordinal
+fn url_email_edge(r: &mut Rng) -> String {
+    const SCHEME: &[&str] = &["http", "https", "ftp", "st", "a.b", "x+y", "1st", "2nd", "H-1", "mailto", "é", ""];
+    const LOGIN: &[&str] = &["", "", "u@", "u:p@", "u;x=1@", "a%20b@", "a%2@", "a b@", "ü@", "@", "u:@", ":p@"];
+    const HOST: &[&str] = &["x.com", "example.org", "a", "a.b.c", "1.2.3.4", "x-y.z", "-x.com", "x..com", "x.com.", "h:80", "h:80a", "80:80", "localhost:8080", "", ".", "é.com"];
+    const PATH: &[&str] = &["", "/", "/a", "/a/b", "/a.b/c.txt", "/x_y-z$+w", "/a;b:c@d&e=f#g", "/%41%4a%4G", "/a%20b", "/a%2", "/a%zz", "//", "/a//b", "/?q=1&r=2#f", "/a b", "/2st", "/é", "/(x),!*'", "/a/\\"];
+    const LOCAL: &[&str] = &["a", "a.b", ".a", "a.", "a..b", "2st", "1st", "x+y", "a!#$%&'*+-/=?^_`{|}~b", "\"a b\"", "\"a\\\"b\"", "\"", "\"\"", "a(b", "é", "", "aaaaaaaaaaaaaaaaaaaaaaaaaaaaaaaaaaaaaaaaaaaaaaaaaaaaaaaaaaaaaaaaa", "aaaaaaaaaaaaaaaaaaaaaaaaaaaaaaaaaaaaaaaaaaaaaaaaaaaaaaaaaaaaaaaa"];
+    const ORD: &[&str] = &["2st", "3rd", "11TH", "113rd", "21th", "1st"];
+    let url = |r: &mut Rng| format!("{}:{}{}{}{}", r.s(SCHEME), r.s(&["//", "//", "//", "/", ""]), r.s(LOGIN), r.s(HOST), r.s(PATH));
+    let mail = |r: &mut Rng| format!("{}@{}", r.s(LOCAL), r.s(HOST));
+    let core = if r.chance(1, 2) { url(r) } else { mail(r) };
+    match r.below(7) {
+        0 => core,
+        1 => format!("{}{}", r.s(ORD), core),
+        2 => format!("{}{}", core, r.s(ORD)),
+        3 => format!("{} {} {}", r.s(WORDS), core, r.s(ORD)),
+        4 => format!("{} {}{}", r.s(ORD), core, r.s(SEPS_AFTER)),
+        5 => format!("{}{}{} {}", r.s(SEPS_BEFORE), core, r.s(SEPS_AFTER), r.s(ORD)),
+        _ => format!("{} {} {}", core, r.s(ORD), if r.chance(1, 2) { url(r) } else { mail(r) }),
+    }
+}
+
 /// `[A-Za-z0-9]['?]s` in front of all sorts of characters (lex_plural_digit's look-ahead uses char::is_alphanumeric)
 fn plural_edge(r: &mut Rng) -> String {
     const HEAD: &[&str] = &["a", "A", "x", "Z", "2", "9", "0", "é", "1990", "the 3", " b"];
@@ -580,7 +609,7 @@ fn spec(pre: &str, num: &str, sfx: &str, post: &str, origin: &'static str, lex_c
 }
 
 fn replay_spec(v: &Value) -> Option<Spec> {
-    if v.get("kind").and_then(|k| k.as_str()) == Some("law") {
+    if matches!(v.get("kind").and_then(|k| k.as_str()), Some("law") | Some("f64_digits") | Some("f64_bits")) {
         return None;
     }
     let g = |k: &str| v.get(k).and_then(|x| x.as_str()).unwrap_or("").to_string();
@@ -641,6 +670,139 @@ fn run_batch(rep: &mut Report, specs: &[Spec], threads: usize) {
     }
 }
 
+// ------------------------------------------------------------------------------------------------
+// the f64 path (Proofs/C17Float.v): str::parse::<f64> on digit strings and NumberSuffix::correct_suffix_for on f64s
+// ------------------------------------------------------------------------------------------------
+fn csf_code(v: f64) -> Result<u32, String> {
+    guarded(move || suffix_code(NumberSuffix::correct_suffix_for(v)))
+}
+fn bits_hex(v: f64) -> String {
+    if v.is_nan() { "7ff8000000000000".into() } else { format!("{:016x}", v.to_bits()) }
+}
+/// `F`: a string of ASCII digits.  Correspondence: bits of the parsed value and the suffix the code computes from it.
+/// Monitor of the one hypothesis left about Rust (str::parse::<f64> is correctly rounded): for n < 2^53 the parsed
+/// value must be the f64 whose integer value is n (the correspondence additionally compares the bits of EVERY
+/// digit string with the correctly rounded value computed by the extracted Flocq model).  Oracle: for n < 2^53
+/// correct_suffix_for answers the English suffix.
+fn run_f64_digits(rep: &mut Report, digits: &str, origin: &str) {
+    rep.eval();
+    rep.count(&format!("origin:{origin}"));
+    let input = json!({"kind": "f64_digits", "digits": digits});
+    let cs: Vec<char> = digits.chars().collect();
+    if cs.is_empty() || !cs.iter().all(|c| c.is_ascii_digit()) {
+        return;
+    }
+    let v = match digits.parse::<f64>() {
+        Ok(v) => v,
+        Err(e) => {
+            rep.case(&format!("F {}", cps(&cs)), "E");
+            rep.fail("f64_parse_rejects_digits", format!("str::parse::<f64> rejects the digit string `{digits}`: {e}"), input);
+            return;
+        }
+    };
+    let code = csf_code(v);
+    let line = match &code { Ok(c) => format!("{} {}", bits_hex(v), c), Err(_) => "P".into() };
+    rep.case(&format!("F {}", cps(&cs)), &line);
+    if let Err(m) = &code {
+        rep.fail("panic", format!("NumberSuffix::correct_suffix_for({v:?}) panicked: {m} at {}", last_panic_location()), input.clone());
+        return;
+    }
+    let small = cs.len() <= 16 && digits.parse::<u128>().map(|n| n < TWO53).unwrap_or(false);
+    rep.count(if small { "f64:digits_below_2^53" } else { "f64:digits_from_2^53_up" });
+    if small {
+        let n: u64 = digits.parse().unwrap();
+        rep.monitor("f64_parse_correctly_rounded", 1);
+        if v.to_bits() != (n as f64).to_bits() || v as u64 != n || v.fract() != 0.0 {
+            rep.fail("f64_parse_inexact", format!("`{digits}`.parse::<f64>() = {v:?} (bits {:016x}) is not the integer {n} (hypothesis of C17_f64_parse_exact: the parse is correctly rounded)", v.to_bits()), input.clone());
+        }
+        let want = match ordinal_of_decimal(&cs) { "th" => 1, "st" => 2, "nd" => 3, _ => 4 };
+        if code != Ok(want) {
+            rep.fail("f64_suffix_wrong", format!("NumberSuffix::correct_suffix_for({v:?}) answers code {:?}, the English suffix of {digits} has code {want} (1 th, 2 st, 3 nd, 4 rd, 0 None)", code), input);
+        } else {
+            rep.nontrivial(&format!("f64:{digits}"));
+        }
+    }
+}
+/// `G`: any f64, decoded into sign, mantissa, exponent for the model
+fn run_f64_bits(rep: &mut Report, bits: u64, origin: &str) {
+    rep.eval();
+    rep.count(&format!("origin:{origin}"));
+    let v = f64::from_bits(bits);
+    let neg = (bits >> 63) as u32;
+    let ef = ((bits >> 52) & 0x7ff) as i64;
+    let frac = bits & ((1u64 << 52) - 1);
+    let case = if ef == 2047 {
+        if frac != 0 { "G nan".to_string() } else { format!("G inf {neg}") }
+    } else if ef == 0 {
+        format!("G {neg} {frac} -1074")
+    } else {
+        format!("G {neg} {} {}", frac + (1u64 << 52), ef - 1075)
+    };
+    let code = csf_code(v);
+    let line = match &code { Ok(c) => format!("{} {}", bits_hex(v), c), Err(_) => "P".into() };
+    rep.case(&case, &line);
+    rep.count(&format!("f64:class:{}", if v.is_nan() { "nan" } else if v.is_infinite() { "inf" } else if v < 0.0 { "negative" } else if v.fract() != 0.0 { "fractional" } else if v >= 9007199254740992.0 { "integer_from_2^53_up" } else { "integer_below_2^53" }));
+    rep.count(&format!("f64:answer:{}", match &code { Ok(0) => "None", Ok(_) => "Some", Err(_) => "panic" }));
+    if let Err(m) = &code {
+        rep.fail("panic", format!("NumberSuffix::correct_suffix_for({v:?}) panicked: {m} at {}", last_panic_location()), json!({"kind": "f64_bits", "bits": format!("{bits:016x}")}));
+    }
+}
+fn random_f64_bits(r: &mut Rng) -> u64 {
+    let int = |r: &mut Rng| -> f64 {
+        match r.below(5) {
+            0 => r.below(200) as f64,
+            1 => (r.next() % (1u64 << 53)) as f64,
+            2 => (r.next() % (1u64 << 33)) as f64 + 4294967296.0 * (r.below(3) as f64),
+            3 => (r.next() >> r.below(12)) as f64,                                  // up to 2^64, mostly not exact integers of the literal
+            _ => 2f64.powi(r.range(50, 70) as i32) + (r.below(5) as f64 - 2.0) * 2f64.powi(r.range(0, 20) as i32),
+        }
+    };
+    let v: f64 = match r.below(12) {
+        0 => return r.next(),                                                        // any bit pattern
+        1 => *r.pick(&[0.0, -0.0, f64::NAN, f64::INFINITY, f64::NEG_INFINITY, f64::EPSILON, f64::MIN_POSITIVE, 5e-324, f64::MAX, 18446744073709551615.0, 18446744073709553664.0, 18446744073709549568.0, 9007199254740992.0, 9007199254740993.0, 4294967295.0, 4294967296.0, 4294967297.0, 1.5, 0.5, 2.5]),
+        2 => -int(r),
+        3 => int(r) + *r.pick(&[0.5, 0.25, 0.75, 0.1, 0.9, 0.001]),
+        4 => { let k = r.range(1, 60) as i32; int(r) % 4096.0 + 2f64.powi(-k) }      // fractions around EPSILON = 2^-52
+        5 => { let b = (1.0f64 + (r.below(8) as f64)).to_bits(); return b + r.below(4) as u64 }   // 1 + k ulp, 2 + k ulp, ...
+        6 => f64::from_bits(r.next() & ((1u64 << 52) - 1) | ((r.below(4) as u64) << 52)),   // subnormal / tiny
+        _ => int(r),
+    };
+    v.to_bits()
+}
+fn run_f64_stream(rep: &mut Report, r: &mut Rng, a: &Args) {
+    // digit strings: every length up to 25, the neighbourhood of 2^53, of 2^64, of the teens; a few hundred-digit ones
+    for n in [0u64, 1, 2, 3, 4, 10, 11, 12, 13, 21, 22, 23, 100, 101, 111, 112, 113, 16777216, 16777217, 4294967295, 4294967296, 4294967297,
+              9007199254740989, 9007199254740990, 9007199254740991, 9007199254740992, 9007199254740993, 9007199254740994, 9007199254740995,
+              18446744073709551613, 18446744073709551614, 18446744073709551615, 999999999999999, 1000000000000000, 1000000000000001] {
+        run_f64_digits(rep, &n.to_string(), "f64_digits_fixed");
+    }
+    run_f64_digits(rep, "18446744073709551616", "f64_digits_fixed");
+    run_f64_digits(rep, "18446744073709551617", "f64_digits_fixed");
+    run_f64_digits(rep, "18446744073709553665", "f64_digits_fixed");
+    run_f64_digits(rep, "0000000000000000000000000113", "f64_digits_fixed");
+    for _ in 0..a.scale(3000, 200_000) {
+        let s = match r.below(8) {
+            0 => { let len = r.range(17, 40); (0..len).map(|i| char::from(b'0' + if i == 0 { r.range(1, 10) } else { r.below(10) } as u8)).collect::<String>() }
+            1 => format!("{}", (1u64 << 53) - 2000 + (r.next() % 4000)),
+            2 => format!("{}{}", "0".repeat(r.below(4)), random_n(r)),
+            3 => format!("{}", r.next()),
+            4 => format!("{}", (r.next() % (1u64 << 21)) + (1u64 << 32) * (r.below(4) as u64)),   // around 2^32 (a u32 cast would show)
+            5 => format!("{}", (1u64 << 24) + (r.next() % (1u64 << 30))),                          // above 2^24 (an f32 trip would show)
+            _ => random_n(r).to_string(),
+        };
+        run_f64_digits(rep, &s, "f64_digits");
+    }
+    for _ in 0..a.scale(4, 40) {
+        let len = r.range(300, 320);
+        let s: String = (0..len).map(|i| char::from(b'0' + if i == 0 { r.range(1, 3) } else { r.below(10) } as u8)).collect();
+        run_f64_digits(rep, &s, "f64_digits_overflow_edge");
+    }
+    for _ in 0..a.scale(4000, 300_000) {
+        let b = random_f64_bits(r);
+        run_f64_bits(rep, b, "f64_bits");
+    }
+}
+
 fn main() {
     let (a, corpus) = hv::cli();
     let mut rep = Report::new(&a.out);
@@ -650,6 +812,17 @@ fn main() {
     // corpus / replay first
     let cs: Vec<Spec> = corpus.iter().filter_map(replay_spec).collect();
     run_batch(&mut rep, &cs, 1);
+    for v in &corpus {
+        match v.get("kind").and_then(|k| k.as_str()) {
+            Some("f64_digits") => run_f64_digits(&mut rep, v.get("digits").and_then(|x| x.as_str()).unwrap_or(""), "replay_f64"),
+            Some("f64_bits") => {
+                if let Some(b) = v.get("bits").and_then(|x| x.as_str()).and_then(|x| u64::from_str_radix(x, 16).ok()) {
+                    run_f64_bits(&mut rep, b, "replay_f64");
+                }
+            }
+            _ => {}
+        }
+    }
     if a.replay.is_some() {
         rep.finish();
         return;
@@ -751,7 +924,18 @@ fn main() {
         };
         specs.push(spec(&t, "", "", "", "lexer_edge", true));
     }
+    // (10) URL / e-mail shapes: correspondence of the tails (Model/C17Tails.v) with lexing/url.rs, email_address.rs
+    for _ in 0..a.scale(1500, 40000) {
+        let t = url_email_edge(&mut r);
+        specs.push(spec(&t, "", "", "", "url_email_edge", true));
+    }
+    for _ in 0..a.scale(200, 4000) {
+        let n = random_n(&mut r);
+        let post = format!("{}{}", r.s(&["@x.com", "@", "://", "://x.com/a", ":// x", "@x", "@.com", ":/x"]), r.s(&["", " ", " now."]));
+        specs.push(spec(r.s(&["", "to ", "a."]), &n.to_string(), r.s(&CASINGS), &post, "url_email_glued", true));
+    }
     run_batch(&mut rep, &specs, threads);
+    run_f64_stream(&mut rep, &mut r, &a);
     if a.thorough() {
         // exhaustive: every n < 10^5 x 16 casings in the template; then 10^6 random n
         let mut count = 0u64;
